@@ -136,7 +136,38 @@ func (c ProgCfg) Program(r *Rand) (any, []string) {
 			planted = append(planted, name)
 		}
 	}
+	BoundRepeats(doc)
 	return doc, planted
+}
+
+// BoundRepeats keeps every integer $repeat count (also inside named-count
+// maps) within 0..3, so that legitimately large expansions are not mistaken
+// for hangs. Negative and non-integer arguments are left alone.
+func BoundRepeats(v any) {
+	switch x := v.(type) {
+	case map[string]any:
+		for k, e := range x {
+			if k == "$repeat" {
+				switch n := e.(type) {
+				case int:
+					if n > 3 {
+						x[k] = n % 4
+					}
+				case map[string]any:
+					for k2, e2 := range n {
+						if i, ok := e2.(int); ok && i > 3 {
+							n[k2] = i % 4
+						}
+					}
+				}
+			}
+			BoundRepeats(x[k])
+		}
+	case []any:
+		for _, e := range x {
+			BoundRepeats(e)
+		}
+	}
 }
 
 // Program2 plants directives into an existing document.
@@ -149,6 +180,7 @@ func (c ProgCfg) Program2(r *Rand, doc any) (any, []string) {
 			planted = append(planted, name)
 		}
 	}
+	BoundRepeats(doc)
 	return doc, planted
 }
 
